@@ -495,6 +495,40 @@ theorem check_accepts (a : Acc ℝ) (e d : ℝ)
   simp only [bind, Except.bind, pure, Except.pure, h1, Acc.unlimited, isPosInf_real, Bool.false_and,
     Bool.false_eq_true, if_false, h3, h4, h5, heps, hdel, decide_true, Bool.and_self, if_true]
 
+/-- conversely, over ℝ an accepted `check(e, d)` means the total including the new spend is within the ceiling -/
+theorem check_ok_total_le (a : Acc ℝ) (e d : ℝ) (h : a.check e d = .ok ()) :
+    (totalCore (a.spent ++ [⟨e, d⟩]) a.slack).eps ≤ a.ceilEps ∧
+    (totalCore (a.spent ++ [⟨e, d⟩]) a.slack).delta ≤ a.ceilDelta := by
+  unfold Acc.check at h
+  simp only [bind, Except.bind, pure, Except.pure, Acc.unlimited, isPosInf_real, Bool.false_and,
+    Bool.false_eq_true, if_false] at h
+  split at h
+  · cases h
+  · split at h
+    · cases h
+    · split at h
+      · cases h
+      · split at h
+        · cases h
+        · rename_i b hb
+          obtain ⟨rfl, -, -, -⟩ := mkBudget_ok _ _ b hb
+          split at h
+          · rename_i hc
+            simp only [Bool.and_eq_true, decide_eq_true_eq] at hc
+            exact hc
+          · cases h
+
+theorem spend_ok (a a' : Acc ℝ) (e d : ℝ) (h : a.spend e d = .ok a') :
+    a' = { a with spent := a.spent ++ [⟨e, d⟩] } ∧ a.check e d = .ok () := by
+  unfold Acc.spend at h
+  simp only [bind, Except.bind, pure, Except.pure] at h
+  split at h
+  · cases h
+  · rename_i u hu
+    cases u
+    cases h
+    exact ⟨rfl, hu⟩
+
 /-- recording one more spend `(e, d)` with `e ≥ 0` in the history does not decrease `afterK` at any `x` -/
 theorem afterK_append_ge (spent : List (Spend ℝ)) (slack : ℝ) (k : Nat) (hs0 : 0 ≤ slack) (hs1 : slack ≤ 1)
     (sp : Spend ℝ) (he : 0 ≤ sp.eps) (x : ℝ) :
